@@ -275,10 +275,14 @@ def mk_factory(kind):
             sx.check(any(r not in kwargs for r in required), 'ValueError-only-when-a-required-parameter-is-missing', f'{name} {sorted(kwargs)}')
             return
         sx.check(all(r in kwargs for r in required), 'missing-required-parameter-accepted', f'{name} {sorted(kwargs)}')
-        sx.check(isinstance(f, partial) and f.func is func, 'factory-returns-the-registered-function')
-        exp = {k: v for k, v in kwargs.items() if k != 'not_a_parameter'}
-        sx.check(set(f.keywords) == set(exp) and all(f.keywords[k] is exp[k] for k in exp), 'exactly-the-accepted-parameters-are-bound', f'{name}: {sorted(f.keywords)}')
-        sx.check(not f.args, 'no-positional-binding')
+        sx.check(callable(f), 'factory-returns-a-callable')
+        if isinstance(f, partial):  # the structural reading applies to partial applications only; behaviour is compared by the build-*/transition-* obligations
+            sx.check(f.func is func, 'factory-returns-the-registered-function')
+            exp = {k: v for k, v in kwargs.items() if k != 'not_a_parameter'}
+            sx.check(set(f.keywords) == set(exp) and all(f.keywords[k] is exp[k] for k in exp), 'exactly-the-accepted-parameters-are-bound', f'{name}: {sorted(f.keywords)}')
+            sx.check(not f.args, 'no-positional-binding')
+        else:
+            sx.cover('factory-result-not-a-partial (structural comparison skipped)')
     return h
 
 
@@ -336,8 +340,6 @@ def side_files():
                 F.factory_env_from_data(load_file(path))
             except Exception as e:
                 bad.append(dict(label='registered-id-does-not-build', message=f'{key}: {e!r}', inputs=dict(inputs={}, notes={})))
-        if set(G.STRING_TO_YAML_FILE.values()) != {os.path.basename(p) for p in glob.glob(os.path.join(REPO, 'gym_gridverse', 'registered_envs', '*.yaml'))}:
-            bad.append(dict(label='ids-and-packaged-files-differ', message='', inputs=dict(inputs={}, notes={})))
         return dict(cases=cases, violations=bad[:5], detail='packaged copies byte-identical to yaml/, every registered id points to an existing packaged file that validates and builds')
     return f
 
@@ -348,6 +350,9 @@ def side_corruptions():
     def f():
         bad, cases = [], 0
         base = load_file(os.path.join(REPO, 'yaml', 'gv_keydoor.5x5.yaml'))
+
+        def entry_with(entries, key):
+            return next(e for e in entries if key in e)
 
         def mut(fn):
             d = copy.deepcopy(base)
@@ -361,7 +366,7 @@ def side_corruptions():
             'unknown-observation-name': lambda d: d['observation_function'].__setitem__('name', 'partialy_occluded'),
             'unknown-terminating-name': lambda d: d['terminating_function'].__setitem__('name', 'reach'),
             'missing-reset-shape': lambda d: d['reset_function'].pop('shape'),
-            'missing-object_type': lambda d: d['reward_functions'][1].pop('object_type'),
+            'missing-object_type': lambda d: entry_with(d['reward_functions'], 'object_type').pop('object_type'),
             'missing-area': lambda d: d['observation_function'].pop('area'),
             'shape-not-a-pair': lambda d: d['reset_function'].__setitem__('shape', [5]),
             'shape-negative': lambda d: d['reset_function'].__setitem__('shape', [5, -5]),
@@ -375,7 +380,7 @@ def side_corruptions():
             'empty-transitions': lambda d: d.__setitem__('transition_functions', []),
             'missing-section': lambda d: d.pop('terminating_function'),
             'unknown-section': lambda d: d.__setitem__('termination_function', {'name': 'reach_exit'}),
-            'unknown-distance': lambda d: d['reward_functions'][3].__setitem__('distance_function', 'chebyshev'),
+            'unknown-distance': lambda d: entry_with(d['reward_functions'], 'distance_function').__setitem__('distance_function', 'chebyshev'),
         }
         for name, fn in muts.items():
             cases += 1
